@@ -129,6 +129,20 @@ impl PipeHandle {
     }
 }
 
+/// No scenario of the harness moves more than a few MiB through one carrier direction. A writer that goes past this cap
+/// is running away (e.g. a flush loop that re-sends the same bytes for ever): the write fails and the execution is
+/// marked, so that the check reports it instead of exhausting memory.
+pub const RUNAWAY_CAP: u64 = 64 << 20;
+
+thread_local! {
+    static RUNAWAY: std::cell::Cell<bool> = const { std::cell::Cell::new(false) };
+}
+
+/// true if a carrier of this thread's execution hit `RUNAWAY_CAP` (resets the mark)
+pub fn take_runaway() -> bool {
+    RUNAWAY.with(|r| r.replace(false))
+}
+
 pub struct PipeReader(Arc<Mutex<Shared>>);
 pub struct PipeWriter(Arc<Mutex<Shared>>);
 
@@ -215,6 +229,10 @@ impl AsyncWrite for PipeWriter {
         }
         if data.is_empty() {
             return Poll::Ready(Ok(0));
+        }
+        if s.stats.bytes_written > RUNAWAY_CAP {
+            RUNAWAY.with(|r| r.set(true));
+            return Poll::Ready(Err(io::Error::new(io::ErrorKind::Other, "verif: carrier byte cap exceeded (runaway writer)")));
         }
         let room = s.policy.window.saturating_sub(s.buf.len() + s.staged.len());
         if room == 0 {
